@@ -94,8 +94,21 @@ func r14Drop(c *core.Ctx, p *load.Program) {
 		if prim[root] {
 			continue
 		}
-		bad, good := dropCheck(p, fn, dropOpts{acceptSentinel: func(s string) bool {
-			return s == "ErrNotExist" || s == "ErrExist"
+		// accepted: errors.Is(ErrNotExist/ErrExist) on the error of a LOOK-UP or of a single store write (MkdirAll's
+		// 'already there'). The same test on the error of a whole file-system operation called recursively (Rename of a
+		// child) is not a look-up idiom: FS operations answer ErrNotExist for a failed Get of their source, so
+		// "the child vanished" would swallow a store failure and orphan the child.
+		bad, good := dropCheck(p, fn, dropOpts{acceptSentinelFor: func(s string, call ssa.CallInstruction) bool {
+			if s != "ErrNotExist" && s != "ErrExist" {
+				return false
+			}
+			if callee := ssax.StaticCallee(call); callee != nil && callee.Object() != nil && callee.Object().Exported() && callee.Signature.Recv() != nil {
+				switch callee.Name() {
+				case "Rename", "Remove", "Mkdir", "MkdirAll", "Chmod", "Chtimes", "OpenFile":
+					return false
+				}
+			}
+			return true
 		}})
 		for _, g := range good {
 			c.OK("R14.2", g.Key, g.Pos, g.Msg)
